@@ -46,6 +46,9 @@ CLAIMED = {
  'C16': ('PBT: hypothesis trees x callback lists; independent bottom-up rewrite producing result, call log and expected metadata',
          'Generated-input search: for trees with a unique position marker on every node (or real spans from parse) and 0-3 callbacks (identity, log, replace class by other class / string / list, wrap) the real call log, result, per-node metadata, tuple/dict pass-through and the untouched input are compared with an independent bottom-up rewrite.',
          'Callbacks return their argument or fresh values (returning an existing descendant is ambiguous and excluded).'),
+ 'C19': ('PBT: one AST rendered twice (canonical fully parenthesised vs. random constructor/operator spellings, signs, separators, comments, line breaks, quotes, MINIMAL parentheses, bare start expression); differential between the renderings + reference interpreter on the AST',
+         'Generated-input search: rich, core and grouping-focused ASTs (all binary operators of every precedence level mixed with postfix forms) are rendered canonically and with every documented alternative spelling and layout drawn at random, including minimal parenthesisation computed from the precedence table of the statement; both descriptions must compile and agree on every entry and all inputs of length <= 4 plus longer ones, and the reference interpreter evaluated on the AST must agree too, so the two renderings cannot agree on a wrong grouping.',
+         'Constructor forms never get bare inline-Python operands (documented exception); let is always parenthesised.'),
 }
 
 checks = []
